@@ -43,6 +43,7 @@ EXTENDS Integers, Sequences, SequencesExt, FiniteSets, TLC, Json, IOUtils
 
 CONSTANTS VNeg, VMax,   \* signal values and thresholds explored: -VNeg..VMax, e.g. -2..3 (cfg files cannot hold negative numbers)
           MaxLen,       \* number of delivered values (the install callback included)
+          MaxIdle,      \* the same bound for cases in which the engine is not running (only `requested` differs there)
           AllowKF,      \* BOOLEAN: offer the as-found constructor of KF-C30-1
           Classes       \* subset of AllClasses
 
@@ -179,7 +180,8 @@ Deliver(v) ==
 Install == vals = <<>> /\ Deliver(v0)
 Change(v) == vals # <<>> /\ Deliver(v)
 
-Next == /\ Len(vals) < MaxLen
+Bound == IF running THEN MaxLen ELSE MaxIdle
+Next == /\ Len(vals) < Bound
         /\ (Install \/ \E v \in ValsOf(cls) : Change(v))
 
 Spec == Init /\ [][Next]_vars
@@ -241,7 +243,7 @@ C30_RequestOnTrip ==
 
 TypeOK == /\ tripped \in BOOLEAN /\ pending \in BOOLEAN
           /\ Len(vals) = Len(hist)
-          /\ Len(vals) <= MaxLen
+          /\ Len(vals) <= Bound
 
 \* reachability witnesses (negated in a config to show the antecedents are not vacuous)
 NeverKF == ~kf
@@ -252,7 +254,7 @@ NeverBoundaryIgnored == ~(\E i \in 1..Len(vals) : ResumeMay(cls, eff, vals[i]) /
 \* (outputs as tuples <<v, tripped, requested, released, pending>> to keep the lines short)
 Case == [cls |-> cls, par |-> par, v0 |-> v0, running |-> running, kf |-> kf,
          hist |-> [i \in 1..Len(hist) |-> <<hist[i].v, hist[i].tripped, hist[i].requested, hist[i].released, hist[i].pending>>]]
-DumpHist == (Len(vals) = MaxLen) => PrintT(<<"HIST", ToJson(Case)>>)
+DumpHist == (Len(vals) = Bound) => PrintT(<<"HIST", ToJson(Case)>>)
 
 \* POSTCONDITION of the exhaustive configs: the documented predicate table, one row per (class, parameters, v0, value),
 \* compared by the harness with _should_suspend / _should_resume of the real classes
